@@ -279,10 +279,6 @@ class WebSocket:
             protocol is required for `reason`.
         """
 
-        # NOTE(kgriffs): Do this first to be sure we clean things up
-        #   in the case that we are going to raise an error next.
-        await self._buffered_receiver.stop()
-
         if code is None:
             code = WSCloseCode.NORMAL
         elif not isinstance(code, int):
@@ -292,9 +288,20 @@ class WebSocket:
         elif 1015 <= code <= 1999 or 1004 <= code <= 1006:
             raise ValueError('Invalid close code. Only unreserved codes may be used.')
 
+        # NOTE: Only stop the background receiver once the code is known to
+        #   be valid; an invalid code leaves the connection open and usable.
+        await self._buffered_receiver.stop()
+
         # NOTE(kgriffs): Only do this after we validate the code, to avoid
         #   masking errors.
         if self.closed:
+            if self._state != _WebSocketState.CLOSED:
+                # NOTE: The client has already disconnected. Since the
+                #   receiver is now stopped, record that so that any later
+                #   operation raises WebSocketDisconnected.
+                self._state = _WebSocketState.CLOSED
+                self._close_code = self._buffered_receiver.client_disconnected_code
+
             return
 
         response = {'type': EventType.WS_CLOSE, 'code': code}
